@@ -139,6 +139,12 @@ def main(argv=None):
     except AnchorError as e:
         rep.violation("ANCHOR", "anchor:%s" % str(e)[:80],
                       "a public-API/external anchor is missing: %s (fail closed)" % e)
+    except Exception as e:  # noqa: a rule that cannot analyse the tree does not pass it
+        import traceback
+        tb = traceback.extract_tb(e.__traceback__)[-1]
+        rep.violation("ANALYSIS", "rule crashed:%s" % type(e).__name__,
+                      "the rule could not analyse this tree (%s: %s at %s:%d) - failing closed" % (
+                          type(e).__name__, str(e)[:120], os.path.basename(tb.filename), tb.lineno))
     if tier == "thorough" and hasattr(mod, "thorough"):
         try:
             mod.thorough(ctx, rep)
